@@ -11,7 +11,7 @@ def main():
     res = {}
     try:
         for pid in ids:
-            r = subprocess.run([sys.executable, os.path.join(ROOT, "tools", "check.py"), pid, "--tier", "quick"] + ([] if full else ["--no-proof"]), capture_output=True, text=True)
+            r = subprocess.run([sys.executable, os.path.join(ROOT, "tools", "check.py"), pid, "--tier", "quick"] + ([] if full else ["--no-proof"]), capture_output=True, text=True, env=dict(os.environ, VERIF_NO_EVIDENCE="1"))
             lines = r.stdout.strip().split("\n")
             viol = [l for l in lines if l.startswith("VIOLATION")]
             fail = [l for l in lines if l.startswith("failure:") or l.startswith("no longer checks")]
